@@ -4,7 +4,7 @@ import numpy as np
 from common import *
 import procgen as pg
 
-PROP_MODULES = ["HvsrVerif.Props.C01", "HvsrVerif.Props.C01Laws"]
+PROP_MODULES = ["HvsrVerif.Props.C01", "HvsrVerif.Props.C01Laws", "HvsrVerif.Props.C01Methods"]
 BRIDGE_MODULES = ["HvsrVerif.Bridge.C01"]
 
 
